@@ -3,7 +3,7 @@
 # confirms the change in the agent's scratch worktree (demo fails with / passes without, suite passes), stores it in
 # /verif/seeded2/<group>_<k>/, applies it to /repo, runs the named checks in dev mode, undoes it. Expected rc=1.
 g=$1; k=$2; shift; shift
-W=/tmp/brk_$g
+W=${WPREFIX:-/tmp/brk_}$g
 D=/verif/${SEEDDIR:-seeded2}/${g}_$k
 mkdir -p $D
 if [ -d $W ]; then
